@@ -25,6 +25,8 @@ def pv_to_py(j):
     if j["t"] == "seq":
         xs = [sc_to_py(x) for x in j["v"]]
         return tuple(xs) if j.get("tuple") else xs
+    if j["t"] == "big":
+        return np.zeros(int(j["n"]))
     if j["t"] == "ndarr":
         return np.array([sc_to_py(x) for x in j["v"]])
     return sc_to_py(j)
